@@ -461,7 +461,7 @@ func dump(s *smx.SM, keys [][]byte) string {
 		add("zttl", ttlClass(s.Read(bs("zttl"), k)), "n")
 		add("bitc", s.Read(bs("bitcount"), k), ":0")
 		add("bttl", ttlClass(s.Read(bs("bttl"), k)), "n")
-		add("json", s.Read(bs("json.get"), k), "$-")
+		add("json", s.Read(bs("json.get"), k), "*1 $-")
 		add("pfc", s.Read(bs("pfcount"), k), ":0")
 		if len(o) > 0 {
 			p = append(p, hx.H(k)+"{"+strings.Join(o, " | ")+"}")
